@@ -2,6 +2,7 @@ import Amgcl.Proofs.SchurExact
 import Amgcl.Proofs.Deflation
 import Amgcl.Proofs.CPRApp
 import Amgcl.Proofs.CPRPass
+import Amgcl.Proofs.CPRWeights
 import Amgcl.Proofs.C18Examples
 /-!
 # C18 — composite preconditioners realise their block formulas
@@ -18,7 +19,8 @@ Schur pressure correction (`schur_pressure_correction.hpp`), for EVERY pressure 
   clause failed when `Kpp` had a row without stored diagonal entry, see notes/repro_c18_schur_adjust_p_missing_diag.cpp).
 * `schur2_block_triangular` : `type = 2` solves `S p = f_p`, `Kuu u + Kup p = f_u`.
 
-CPR (`cpr.hpp`): `cpr_formula`, `cpr_pressure_matrix`, `cpr_partial_update_noop` (scalar input, sorted rows).
+CPR (`cpr.hpp`): `cpr_formula`, `cpr_pressure_matrix` + `cpr_weights` (the pressure matrix is the first-row-of-inverse-
+diagonal-block weighting of `A`), `cpr_partial_update_noop` (scalar input, sorted rows).
 
 Deflated solver (`deflated_solver.hpp`): `deflation_E` (`E = Zᵀ A Z`), `deflation_projects`
 (`Zᵀ (b - A x) = 0` after `project`), `deflation_exact_precond` (with an exact preconditioner and `preonly` the
@@ -270,38 +272,8 @@ theorem cpr_pressure_matrix (A : CRS K) (hs : A.sortedb = true) (B act q : Nat) 
     rw [getD_ofFn_lt _ _ _ hip']
     simp only [hN]
     rfl
-  -- the Fpp row
-  have hFpp : st.Fpp.row ip = (List.range B).map (fun i => (ip * B + i, w.getD i 0)) := by
-    show (initScalar A B act).Fpp.row ip = _
-    unfold initScalar fppOf CRS.row
-    simp only
-    rw [getD_ofFn_lt _ _ _ hip']
-    simp only [hN]
-    rfl
-  have hFget : ∀ i, i < B → st.Fpp.get ip (ip * B + i) = w.getD i 0 := by
-    intro i hi
-    unfold CRS.get
-    rw [hFpp]
-    have : ∀ (l : List Nat), l.Nodup → i ∈ l →
-        rowGet (l.map (fun t => (ip * B + t, w.getD t 0))) (ip * B + i) = w.getD i 0 := by
-      intro l
-      induction l with
-      | nil => intro _ h; cases h
-      | cons a t ih =>
-        intro hnd hmem
-        rw [List.map_cons, rowGet_cons']
-        have hnd' := List.nodup_cons.1 hnd
-        by_cases hai : a = i
-        · subst hai
-          rw [if_pos rfl, rowGet_eq_zero_of_not_mem, add_zero]
-          intro cv hcv
-          obtain ⟨t', ht', rfl⟩ := List.mem_map.1 hcv
-          intro he
-          have : t' = a := by simpa using he
-          exact hnd'.1 (this ▸ ht')
-        · rw [if_neg (by intro he; exact hai (by omega)), zero_add]
-          exact ih hnd'.2 (by rcases List.mem_cons.1 hmem with h | h; exact absurd h.symm hai; exact h)
-    exact this (List.range B) List.nodup_range (List.mem_range.2 hi)
+  have hFget : ∀ i, i < B → st.Fpp.get ip (ip * B + i) = w.getD i 0 :=
+    fun i hi => initScalar_Fpp_get A B act q hB hN ip hip i hi
   unfold CRS.get
   rw [hApp]
   unfold appRow
@@ -337,6 +309,30 @@ theorem cpr_pressure_matrix (A : CRS K) (hs : A.sortedb = true) (B act q : Nat) 
 example : (initScalar C18Ex.Ac 2 0).App.get 0 1
     = ∑ i ∈ range 2, (initScalar C18Ex.Ac 2 0).Fpp.get 0 (0 * 2 + i) * C18Ex.Ac.get (0 * 2 + i) (1 * 2) :=
   cpr_pressure_matrix C18Ex.Ac C18Ex.Ac_ok.1 2 0 2 (by decide) C18Ex.Ac_ok.2 0 1 (by decide) (by decide)
+
+/-- **the weights are the first row of the inverse diagonal block**: whenever the constructor ran without the
+`uninit` / `zero_pivot` outcome, `Σ_i w_i · D(i, c) = δ_{c,0}` for the diagonal block `D = A[ip·B.., ip·B..]`, i.e.
+`w = e₀ᵀ D⁻¹`; with `cpr_pressure_matrix`: `App` is the first-row-of-inverse-diagonal-block weighting of `A`.
+(`cpr::invert`, an LU factorisation without pivoting, is proved correct for every block size.) -/
+theorem cpr_weights (A : CRS K) (hs : A.sortedb = true) (B act q : Nat) (hB : 0 < B)
+    (hN : (if act = 0 then A.nrows else act) = q * B)
+    (hu : (initScalar A B act).uninit = false) (hz : (initScalar A B act).zeroPivot = false)
+    (ip : Nat) (hip : ip < q) (c : Nat) (hc : c < B) :
+    ∑ i ∈ range B, (initScalar A B act).Fpp.get ip (ip * B + i) * A.get (ip * B + i) (ip * B + c)
+      = if c = 0 then 1 else 0 := by
+  obtain ⟨y, hy⟩ := initScalar_ok_isSome A B act q hB hN hu hz ip hip
+  obtain ⟨_, hyeq⟩ := passRow_weights A hs B (q * B) ip q hB rfl hip y hy
+  rw [← hyeq c hc]
+  apply Finset.sum_congr rfl
+  intro i hi
+  rw [initScalar_Fpp_get A B act q hB hN ip hip i (Finset.mem_range.1 hi)]
+  unfold weights
+  rw [hy]; rfl
+
+-- non-vacuity: the 4×4 example has a non-singular leading 2×2 block `[4 1; 1 3]`
+example : ∑ i ∈ range 2, (initScalar C18Ex.Ac 2 0).Fpp.get 0 (0 * 2 + i) * C18Ex.Ac.get (0 * 2 + i) (0 * 2 + 1) = 0 :=
+  cpr_weights C18Ex.Ac C18Ex.Ac_ok.1 2 0 2 (by decide) C18Ex.Ac_ok.2 C18Ex.Ac_flags.1 C18Ex.Ac_flags.2 0 (by decide) 1
+    (by decide)
 
 /-- **a partial update with an unchanged matrix leaves the object — hence its action — unchanged**, with or without
 `update_transfer_ops` (scalar input, rows with strictly increasing columns) -/
